@@ -31,7 +31,7 @@ def bounds(tier):
         return {'max_levels': 3, 'max_leaves': 4, 'schemes': ['D', 'E'],
                 'iterations': [1, 2, 3, 7], 'n_runners_up': [0, 1, 2, 10],
                 'n_cells': 4}
-    return {'max_levels': 4, 'max_leaves': 6, 'schemes': ['B', 'D', 'E'],
+    return {'max_levels': 4, 'max_leaves': 5, 'schemes': ['B', 'D', 'E'],
             'iterations': [1, 2, 3, 7, 10], 'n_runners_up': [0, 1, 2, 3, 10],
             'n_cells': 5}
 
